@@ -10,6 +10,7 @@ import (
 	"math/rand"
 	"os"
 	"os/signal"
+	"path/filepath"
 	"runtime"
 	"sort"
 	"strings"
@@ -41,6 +42,9 @@ func main() {
 		childMain(os.Args[2:])
 		return
 	}
+	if _, ok := checks[id]; ok {
+		vhSandbox() // cmd/vh/sandbox.go: in the wrapper process this does not return
+	}
 	fs := flag.NewFlagSet("vh", flag.ExitOnError)
 	tier := fs.String("tier", "quick", "quick or thorough")
 	seed := fs.Int64("seed", 1, "PRNG seed")
@@ -57,6 +61,63 @@ func main() {
 	}
 	t0 := time.Now()
 	r := lib.NewResult(strings.ToUpper(id), *tier, *seed)
+	// Containment (lib/contain.go, lib/hostguard.go): file arguments are made absolute, the process moves into
+	// a scratch directory of its own, and the host outside the scratch area is watched while the check runs.
+	startDir, _ := os.Getwd()
+	for _, p := range []*string{model, out, replay} {
+		if *p != "" && *p != "-" {
+			if a, err := filepath.Abs(*p); err == nil {
+				*p = a
+			}
+		}
+	}
+	vhAbsArg0()
+	if err := lib.InitContainment(false); err != nil {
+		fmt.Fprintln(os.Stderr, "vh: cannot set up the scratch area:", err)
+		os.Exit(2)
+	}
+	watch := lib.NewHostWatch(startDir)
+	if vhSandboxNote != "" {
+		r.Note("%s", vhSandboxNote)
+	}
+	var hostMu sync.Mutex
+	hostCheck := func() {
+		hostMu.Lock()
+		defer hostMu.Unlock()
+		for _, ch := range watch.Verify() {
+			r.Fail(lib.Failure{Kind: "oracle", Key: "host/outside-scratch-modified",
+				What:     "something outside the scratch directories of the check changed while it ran: " + ch,
+				Input:    map[string]any{"property": r.Property, "tier": r.Tier, "seed": r.Seed, "note": "not a single replayable case: re-run the check; requests are contained before they are sent, so a server that resolves paths wrongly or a hole in the harness's containment did this"},
+				Expected: "nothing outside the check's own scratch directories is created, removed or modified", Actual: ch})
+		}
+		for _, n := range watch.Notes() {
+			r.Note("%s", n)
+		}
+		for _, e := range lib.Escapes() {
+			if !vhEscapeSeen[e] {
+				vhEscapeSeen[e] = true
+				r.Fail(lib.Failure{Kind: "tie", Key: "harness/uncontained-request-stopped-at-transport",
+					What: "a request with a path outside the scratch directories reached the transport of an os-backed server and was not delivered (the check's own containment filter has a hole): " + e, Actual: e})
+			}
+		}
+	}
+	hostStop := make(chan struct{})
+	go func() { // damage is reported and put back while the check still runs
+		for {
+			select {
+			case <-hostStop:
+				return
+			case <-time.After(200 * time.Millisecond):
+				hostCheck()
+			}
+		}
+	}()
+	finishContainment := func() {
+		close(hostStop)
+		hostCheck()
+		watch.Close()
+		lib.CleanupScratch()
+	}
 	c := &lib.Ctx{Tier: *tier, Seed: *seed, ModelPath: *model, Replay: *replay, Rand: rand.New(rand.NewSource(*seed)), R: r}
 	vhResult = r
 	lib.ConfigureBudget(*tier, time.Duration(*budget*float64(time.Second)), time.Duration(*hangBudget*float64(time.Second)))
@@ -76,6 +137,7 @@ func main() {
 		lib.RunInterruptHooks()
 		r.Note("interrupted by %v after %.0f s: partial result, only what had been recorded by then", sig, time.Since(t0).Seconds())
 		r.MarkIncomplete("interrupted by %v", sig)
+		finishContainment()
 		lib.BudgetReport(r)
 		err := r.Write(*out)
 		if partial != "" {
@@ -159,6 +221,7 @@ watch:
 			Expected: "every call into the package returns", Actual: map[string]any{"callers_blocked_in_package": cliDescribe(callers), "package_goroutines": cliDescribe(started)}})
 		r.Note("abandoned after %.0f s: %s", time.Since(t0).Seconds(), why)
 		r.MarkIncomplete("abandoned: %s", why)
+		finishContainment()
 		lib.BudgetReport(r)
 		err := r.Write(*out)
 		if partial != "" {
@@ -173,6 +236,7 @@ watch:
 		os.Exit(0)
 	}
 	finish.Lock()
+	finishContainment()
 	lib.BudgetReport(r)
 	err := r.Write(*out)
 	if partial != "" {
@@ -182,6 +246,17 @@ watch:
 	if err != nil {
 		fmt.Fprintln(os.Stderr, "vh:", err)
 		os.Exit(2)
+	}
+}
+
+var vhEscapeSeen = map[string]bool{}
+
+// vhAbsArg0 makes os.Args[0] absolute: children are started as os.Args[0] after the process has moved.
+func vhAbsArg0() {
+	if exe, err := os.Executable(); err == nil {
+		os.Args[0] = exe
+	} else if a, err := filepath.Abs(os.Args[0]); err == nil {
+		os.Args[0] = a
 	}
 }
 
@@ -212,5 +287,11 @@ func childMain(args []string) {
 		}()
 	}
 	defer lib.FlushBudget()
+	vhAbsArg0()
+	if err := lib.InitContainment(true); err != nil {
+		fmt.Fprintln(os.Stderr, "vh child: cannot set up the scratch area:", err)
+		os.Exit(2)
+	}
+	defer lib.CleanupScratch()
 	f(args[1:])
 }
